@@ -16,6 +16,7 @@ int wk_tier = 0;
 int wk_verbose = 0;
 static int real_stdout = 1;
 static const char *log_path = NULL;
+int wk_fork_per_case = 0;
 static regex_t known_re[8]; static int n_known_re = 0;
 static int sig_is_known(const char *sig);
 int wk_sig_known(const char *sig) { return sig_is_known(sig); }
@@ -200,7 +201,7 @@ int wk_main(int argc, char **argv)
     long next = shard;
     while (next < size) {
         struct stat sb; long from = 0; if (log_path && stat(log_path, &sb) == 0) from = sb.st_size;
-        wk->done = 0; wk->deadline_hit = 0; wk->crash_sig = 0; wk->where[0] = 0; wk->cur_idx = -1;
+        wk->done = 0; wk->deadline_hit = 0; wk->one_case_done = 0; wk->crash_sig = 0; wk->where[0] = 0; wk->cur_idx = -1;
         pid_t pid = fork();
         if (pid < 0) { perror("fork"); return 2; }
         if (pid == 0) {
@@ -212,7 +213,7 @@ int wk_main(int argc, char **argv)
                 wk->cur_idx = idx;
                 ck->decode(wk_tier, idx, &c); c.idx = idx; snprintf(c.variant, sizeof c.variant, "%s", wk_variant);
                 run_one(ck, &c, &r, percase);
-                if (r.status == 2) { wk->skipped++; continue; }
+                if (r.status == 2) { wk->skipped++; if (wk_fork_per_case) { wk->resume_idx = idx + nshards; wk->one_case_done = 1; fflush(NULL); _exit(0); } continue; }
                 wk->evaluations++;
                 if (r.nontrivial) { wk->nontrivial++; if (wk->nsamples < 4 && (iter % 97 == 0 || wk->nsamples == 0)) { vcase_format(&c, txt, sizeof txt); snprintf(wk->samples[wk->nsamples++], 640, "%s", txt); } }
                 add_outcome(r.outcome);
@@ -223,10 +224,12 @@ int wk_main(int argc, char **argv)
                     if (sig_is_known(r.sig)) wk->counters[WK_NCOUNT - 1]++;
                     if (wk->nfail - wk->counters[WK_NCOUNT - 1] >= maxfail) { wk->deadline_hit = 2; wk->resume_idx = idx + nshards; fflush(NULL); _exit(0); }
                 }
+                if (wk_fork_per_case && idx + nshards < size) { wk->resume_idx = idx + nshards; wk->one_case_done = 1; fflush(NULL); _exit(0); }
             }
             wk->done = 1; fflush(NULL); _exit(0);
         }
         int st; waitpid(pid, &st, 0);
+        if (wk->one_case_done && !wk->deadline_hit && !wk->done) { next = wk->resume_idx; if (now_s() - t0 > deadline) { wk->deadline_hit = 1; break; } continue; }
         if (wk->done || wk->deadline_hit) break;
         /* the child died while running case cur_idx */
         long ci = wk->cur_idx;
